@@ -15,7 +15,7 @@ inductive EditClass where
   | none      -- not at all
   | insert    -- adds or (configured `action: remove`) removes redundant keywords / a copy of a name that is still there
   | delete    -- removes a label (`name :`) or an end name
-  | parens    -- adds balanced parentheses
+  | parens    -- adds or (configured `parenthesis: remove`) removes balanced parentheses
   | split     -- splits a multi-identifier declaration
   deriving DecidableEq, Repr
 
@@ -59,6 +59,16 @@ def insertOk (n : Nat) (a b : List Str) : Bool :=
   | some e => e.all (fun x => x ∈ redundantKeywords || x ∈ a) && e.length ≤ n * perEdit .insert
   | none => false
 
+/-- removal of optional elements (`action: remove`): what goes is a redundant keyword, a name
+    that is still present, or whatever stands in the end-name position (directly after `end` or
+    after the redundant keyword that follows `end`) -/
+def removeOk (n : Nat) (a b : List Str) : Bool :=
+  match extrasP none b a with
+  | some e => e.all (fun px => px.2 ∈ redundantKeywords || px.2 ∈ b ||
+        (match px.1 with | some p => p == s "end" || p ∈ redundantKeywords | none => false))
+      && e.length ≤ n * perEdit .insert
+  | none => false
+
 def deleteOk (n : Nat) (a b : List Str) : Bool :=
   match extras b a with
   | some e => e.all (fun x => x == s ":" || (x ∉ redundantKeywords)) && e.length ≤ n * perEdit .delete
@@ -79,9 +89,9 @@ def codeAllowed (c : EditClass) (n : Nat) (a b : List Str) : Bool :=
   a == b ||
   match c with
   | .none => false
-  | .insert => insertOk n a b || insertOk n b a
+  | .insert => insertOk n a b || removeOk n a b
   | .delete => deleteOk n a b
-  | .parens => parensOk n a b
+  | .parens => parensOk n a b || parensOk n b a
   | .split => splitOk a b
 
 /-- documented class of a rule: by its root group (`whitespace`, `blank_line`, `indent`,
